@@ -419,6 +419,11 @@ unsafe fn exec(ctxs: &mut HashMap<String, Ctx>, sys: &str, words: &[&str]) -> St
                 };
                 format!("R {}", rc)
             }
+            "nolog" => {
+                // chewing_set_logger(ctx, NULL, NULL): this context wants no log output (the level is process-wide)
+                chewing_set_logger(c, None, null_mut());
+                "R 0".into()
+            }
             "upwalk" => {
                 // the user-phrase enumeration read with caller buffers of the given sizes (-1 = NULL, n = n bytes,
                 // guard bytes behind them): the return codes of chewing_userphrase_get, and whether a byte past the
@@ -938,6 +943,10 @@ fn check_case(sup: &mut Sup, rng: &mut Rng, n: usize, tier: &str, stats: &mut St
     let hb = gen_history(rng, len, wild, true);
     let b_ops = with_ctx("B", &hb);
     let mut iso = vec!["A new".to_string(), "B new".to_string()];
+    if n % 2 == 0 {
+        // the other context turns ITS log output off: nobody else's business
+        iso.push("B nolog".to_string());
+    }
     let (mut i, mut j) = (0, 0);
     while i < a_ops.len() || j < b_ops.len() {
         if j >= b_ops.len() || (i < a_ops.len() && rng.chance(1, 2)) {
